@@ -672,8 +672,18 @@ def clip(a, a_min=None, a_max=None, out=None, out_like=None, sizing='optimal', m
         val_min = kwargs.pop('a_min', None)
         val_max = kwargs.pop('a_max', None)
 
-        if val_min is not None: val_min *= 2**x.n_frac
-        if val_max is not None: val_max *= 2**x.n_frac
+        def _raw_bound(bound, missing):
+            # bound as a raw value (a new object: the caller's array is not modified); a missing bound does not clip
+            if bound is None:
+                return missing
+            if isinstance(bound, Fxp):
+                bound = bound.get_val()
+            elif isinstance(bound, (list, tuple)):
+                bound = np.asarray(bound)
+            return bound * 2**x.n_frac
+
+        val_min = _raw_bound(val_min, -np.inf)
+        val_max = _raw_bound(val_max, np.inf)
 
         return utils.clip(x.val, val_min=val_min, val_max=val_max) * precision_cast(2**(n_frac - x.n_frac))
 
